@@ -60,7 +60,10 @@ type CaseSpec struct {
 	MaxCleanUpMs  int                     `json:"maxCleanUpMs,omitempty"`
 	Params        string                  `json:"params,omitempty"`
 	NoDone        bool                    `json:"noDone,omitempty"`
-	IterProb      int                     `json:"iterProb,omitempty"` // % chance to take a decision at a nodeIter point (random mode)
+	IterProb      int                     `json:"iterProb,omitempty"`   // % chance to take a decision at a nodeIter point (random mode)
+	SlowDoneUs    int                     `json:"slowDoneUs,omitempty"` // scheduler level: the done-channel receiver takes this long per node
+	InitEnv       map[string]string       `json:"initEnv,omitempty"`    // exported before the run, removed after it
+	InitFiles     map[string]string       `json:"initFiles,omitempty"`  // written before the run, removed after it
 	Retention     int                     `json:"-"`
 }
 
@@ -95,7 +98,7 @@ type Outcome struct {
 	StopInject   int // event seq at which the stop was issued (before fan-out), -1 if none
 	StopInjected bool
 	StopDropped  bool // POST /stop answered 200 but the stop was never fanned out (20 s)
-	SignalReturn int // event seq at which Agent.Signal returned (agent level), -1
+	SignalReturn int  // event seq at which Agent.Signal returned (agent level), -1
 	// agent level
 	Dir          string
 	LoadedParams []string
@@ -239,13 +242,17 @@ func buildSteps(spec *CaseSpec, dir string) ([]dag.Step, map[string]*dag.Step, [
 		if s.Repeat {
 			st.RepeatPolicy = dag.RepeatPolicy{Repeat: true, Interval: time.Duration(s.RepeatMs) * time.Millisecond}
 		}
-		if s.HasPrecond {
+		if s.PrecondVar != "" || s.PrecondText != "" {
+			st.Preconditions = append(st.Preconditions, dag.Condition{Condition: precondText(s), Expected: precondExpect(s)})
+		} else if s.HasPrecond {
 			for i := 0; i < precondN(s); i++ {
 				st.Preconditions = append(st.Preconditions, dag.Condition{Condition: "$" + precondEnv(spec.ID, s.Name, i), Expected: "1"})
 			}
 		}
 		if s.SetupFail {
 			st.Stdout = filepath.Join(dir, "no-such-dir", "x", s.Name+".out")
+		} else if s.TeardownFail {
+			st.Stdout = "/dev/full"
 		} else if s.StdoutFile {
 			st.Stdout = filepath.Join(dir, s.Name+".stdout")
 		}
@@ -283,9 +290,29 @@ func precondEnv(caseID, step string, i int) string {
 	return fmt.Sprintf("%s_%d", envName(caseID, step), i)
 }
 
+func precondText(s *StepSpec) string {
+	if s.PrecondText != "" {
+		return s.PrecondText
+	}
+	return "$" + s.PrecondVar
+}
+
+func precondExpect(s *StepSpec) string {
+	if s.PrecondExpect != "" {
+		return s.PrecondExpect
+	}
+	return "1"
+}
+
 func setPrecondEnv(spec *CaseSpec) {
+	for k, v := range spec.InitEnv {
+		os.Setenv(k, v)
+	}
+	for k, v := range spec.InitFiles {
+		_ = os.WriteFile(k, []byte(v), 0644)
+	}
 	for _, s := range spec.Steps {
-		if s.HasPrecond {
+		if s.HasPrecond && s.PrecondVar == "" && s.PrecondText == "" {
 			for i := 0; i < precondN(s); i++ {
 				v := "1"
 				if s.PrecondUnmet && i == s.PrecondBadAt%precondN(s) {
@@ -308,6 +335,12 @@ func setPrecondEnv(spec *CaseSpec) {
 }
 
 func clearPrecondEnv(spec *CaseSpec) {
+	for k := range spec.InitEnv {
+		os.Unsetenv(k)
+	}
+	for k := range spec.InitFiles {
+		os.Remove(k)
+	}
 	for _, s := range spec.Steps {
 		if s.HasPrecond {
 			for i := 0; i < precondN(s); i++ {
@@ -376,7 +409,9 @@ func BuildYAML(spec *CaseSpec, dir string) string {
 		if s.Repeat {
 			fmt.Fprintf(&b, "    repeatPolicy:\n      repeat: true\n      intervalSec: 0\n")
 		}
-		if s.HasPrecond {
+		if s.PrecondVar != "" || s.PrecondText != "" {
+			fmt.Fprintf(&b, "    preconditions:\n      - condition: %s\n        expected: %s\n", q(precondText(s)), q(precondExpect(s)))
+		} else if s.HasPrecond {
 			fmt.Fprintf(&b, "    preconditions:\n")
 			for i := 0; i < precondN(s); i++ {
 				fmt.Fprintf(&b, "      - condition: %s\n        expected: \"1\"\n", q("$"+precondEnv(spec.ID, s.Name, i)))
@@ -388,7 +423,9 @@ func BuildYAML(spec *CaseSpec, dir string) string {
 		if s.OutputVar != "" {
 			fmt.Fprintf(&b, "    output: %s\n", s.OutputVar)
 		}
-		if s.SetupFail {
+		if s.TeardownFail {
+			fmt.Fprintf(&b, "    stdout: /dev/full\n")
+		} else if s.SetupFail {
 			fmt.Fprintf(&b, "    stdout: %s\n", q(filepath.Join(dir, "no-such-dir", "x", s.Name+".out")))
 		}
 	}
@@ -846,6 +883,10 @@ func runOnce(spec *CaseSpec, opts *RunOpts) *Outcome {
 				done = make(chan *scheduler.Node)
 				go func() {
 					for range done {
+						// the receiver of the agent writes the status file for every node it is handed
+						if spec.SlowDoneUs > 0 {
+							time.Sleep(time.Duration(spec.SlowDoneUs) * time.Microsecond)
+						}
 					}
 				}()
 				defer close(done)
